@@ -119,6 +119,8 @@ def run(chk):
                 or fn in (E + "NewIdentityPoint", E + "NewGeneratorPoint"):
             items.append(("encapsulation " + short, lambda fn=fn: encapsulation(base, chk, fn)))
     run_kernels(chk, heavy + items)
+    from .common import settle_bounds
+    settle_bounds(chk, prog, [prog.find("Point)." + r) for r in ("ScalarMult", "ScalarBaseMult", "VarTimeDoubleScalarBaseMult", "MultiScalarMult", "VarTimeMultiScalarMult")])
     groups = [
         ("Point.SetExtendedCoordinates", lambda o: "SetExtendedCoordinates" in o.name, lambda: c13.setext_battery_with_witnesses(chk, base)),
         ("Point.SetBytes", lambda o: o.name.startswith("Point.SetBytes"), lambda: c04.decode_battery(chk.seed)),
